@@ -4,6 +4,7 @@
 package gen
 
 import (
+	"reflect"
 	"fmt"
 	"math/rand"
 	"sort"
@@ -190,11 +191,41 @@ func (g *G) Node(id string) *sbom.Node {
 		typ := []string{"generic", "deb", "npm"}[g.R.Intn(3)]
 		sep := []string{"", "/"}[g.R.Intn(2)]
 		n.Identifiers[int32(sbom.SoftwareIdentifierType_PURL)] = fmt.Sprintf("pkg:%s%s/%s@1.%d", sep, typ, safeWords[g.R.Intn(len(safeWords))], g.R.Intn(9))
+		if g.R.Intn(3) == 0 {
+			n.Identifiers[int32(sbom.SoftwareIdentifierType_PURL)] = PurlZoo(g.R, safeWords[g.R.Intn(len(safeWords))], g.R.Intn(9))
+		}
 		if n.Type == sbom.Node_FILE && g.R.Intn(2) == 0 {
 			n.Type = sbom.Node_PACKAGE
 		}
 	}
 	return n
+}
+
+// PurlZoo returns a package url in one of the shapes the purl specification allows (qualifiers,
+// subpaths, namespaces, escaped and unescaped scopes, no version) or that producers get wrong.
+func PurlZoo(r *rand.Rand, name string, k int) string {
+	shapes := []string{
+		"pkg:npm/%%40scope/%s@1.0.%d",
+		"pkg:npm/@scope/%s@1.0.%d",
+		"pkg:generic/%s?vcs_url=git@github.com:acme/dep%d.git",
+		"pkg:github/acme/%s#docs/@internal%d",
+		"pkg:deb/debian/%s@1.0-%d?arch=amd64&distro=debian-11",
+		"pkg:golang/github.com/acme/%s@v1.2.%d#cmd/tool",
+		"pkg:maven/org.acme/%s@1.%d?type=jar&classifier=sources",
+		"pkg:oci/%s@sha256:0123456789abcdef%d?repository_url=ghcr.io/acme/img&tag=latest",
+		"pkg:generic/%s@%.0d",
+		"pkg:generic/%s%.0d",
+		"PKG:Generic/%s@1.%d",
+		"pkg:generic/%s@1.%d@2",
+		"pkg:generic/%s@1.%d?",
+		"pkg:generic/%s@1.%d#",
+		"pkg:generic/%s%%20with%%20space@1.%d+build.1",
+		"pkg:pypi/%s@1.%d.0rc1?extra=a%%40b",
+		"notapurl-%s-%d",
+		"pkg:%s%.0d",
+		"pkg:generic/@%s.%d",
+	}
+	return fmt.Sprintf(shapes[r.Intn(len(shapes))], name, k)
 }
 
 var hashAlgos = []sbom.HashAlgorithm{sbom.HashAlgorithm_SHA1, sbom.HashAlgorithm_SHA256, sbom.HashAlgorithm_SHA512, sbom.HashAlgorithm_MD5}
@@ -235,6 +266,9 @@ func (g *G) fillSerialisableNode(n *sbom.Node) {
 		n.Identifiers = map[int32]string{}
 		if g.R.Intn(3) != 0 {
 			n.Identifiers[int32(sbom.SoftwareIdentifierType_PURL)] = fmt.Sprintf("pkg:generic/%s@1.0.%d", safeWords[g.R.Intn(len(safeWords))], g.ctr)
+			if g.R.Intn(3) == 0 {
+				n.Identifiers[int32(sbom.SoftwareIdentifierType_PURL)] = PurlZoo(g.R, safeWords[g.R.Intn(len(safeWords))], g.ctr)
+			}
 		}
 		if g.R.Intn(2) == 0 {
 			n.Identifiers[int32(sbom.SoftwareIdentifierType_CPE22)] = fmt.Sprintf("cpe:/a:vendor:%s:1.%d", safeWords[g.R.Intn(len(safeWords))], g.ctr)
@@ -433,6 +467,67 @@ func (g *G) Person(depth int) *sbom.Person {
 
 // Dump is an order-sensitive, field-by-field rendering of a message (maps by
 // sorted key). It uses only protoreflect reads; it never marshals.
+// DumpHidden lists what lies between length and capacity of every slice reachable from m (Go structs,
+// by reflection): a write beyond the length of an operand's list does not change the operand's value,
+// but it is a write into the operand's memory.
+func DumpHidden(m proto.Message) string {
+	var b strings.Builder
+	seen := map[uintptr]bool{}
+	var walk func(v reflect.Value, path string, depth int)
+	walk = func(v reflect.Value, path string, depth int) {
+		if depth > 12 {
+			return
+		}
+		switch v.Kind() {
+		case reflect.Ptr:
+			if v.IsNil() || seen[v.Pointer()] {
+				return
+			}
+			seen[v.Pointer()] = true
+			walk(v.Elem(), path, depth+1)
+		case reflect.Struct:
+			for i := 0; i < v.NumField(); i++ {
+				f := v.Type().Field(i)
+				if !f.IsExported() {
+					continue
+				}
+				walk(v.Field(i), path+"."+f.Name, depth+1)
+			}
+		case reflect.Slice:
+			if v.IsNil() || v.Type().Elem().Kind() == reflect.Uint8 {
+				return
+			}
+			if v.Cap() > v.Len() {
+				full := v.Slice(0, v.Cap())
+				for i := v.Len(); i < v.Cap(); i++ {
+					e := full.Index(i)
+					switch e.Kind() {
+					case reflect.Ptr:
+						if !e.IsNil() {
+							fmt.Fprintf(&b, "%s[%d of len %d]=<pointer>;", path, i, v.Len())
+						}
+					case reflect.String:
+						if e.String() != "" {
+							fmt.Fprintf(&b, "%s[%d of len %d]=%q;", path, i, v.Len(), e.String())
+						}
+					default:
+						if !e.IsZero() {
+							fmt.Fprintf(&b, "%s[%d of len %d]=%v;", path, i, v.Len(), e.Interface())
+						}
+					}
+				}
+			}
+			for i := 0; i < v.Len(); i++ {
+				if k := v.Index(i).Kind(); k == reflect.Ptr || k == reflect.Struct {
+					walk(v.Index(i), path, depth+1)
+				}
+			}
+		}
+	}
+	walk(reflect.ValueOf(m), "", 0)
+	return b.String()
+}
+
 func Dump(m proto.Message) string {
 	if m == nil {
 		return "<nil>"
